@@ -92,6 +92,14 @@ class FakeNet(object):
                 reset = True
             elif kind == "net_truncated":
                 cut = int(len(body) * f.get("at", 0.5))
+                try:
+                    body[:cut].decode("utf-8")
+                    # a decodable cut keeps whole lines only: a partial last
+                    # line would be a malformed rule, whose meaning neither the
+                    # algorithm nor the property defines
+                    cut = body.rfind(b"\n", 0, cut) + 1
+                except UnicodeDecodeError:
+                    self.stats.probe("truncated_inside_utf8_sequence")
                 if cut < len(body):
                     self.fired(kind)
                 body = body[:cut]
